@@ -89,7 +89,16 @@ func TestVerif(t *testing.T) {
 		for q := 1 + r.n(4); q > 0; q-- {
 			flags = append(flags, []string{"-L/opt/x", "-lfoo", "-I/inc", "-DX=1", "-lé"}[r.n(5)])
 		}
-		os.WriteFile(pcfile, []byte(strings.Join(flags, " ")+"\n"), 0o644)
+		// tools such as llvm-config print several lines: line breaks separate flags like blanks
+		seps := []string{" ", "\n", " \n", "\n\n"}
+		var ob strings.Builder
+		for fi, fl := range flags {
+			if fi > 0 {
+				ob.WriteString(seps[r.n(len(seps))])
+			}
+			ob.WriteString(fl)
+		}
+		os.WriteFile(pcfile, []byte(ob.String()+"\n"), 0o644)
 		pre := []string{"", "-lpre ", "$VA "}[r.n(3)]
 		tm2 := pre + "$(pkg-config --libs foo)"
 		gotArgs := ExpandEnvToArgs(tm2)
